@@ -248,6 +248,11 @@ func (e *Engine) Run(harnesses []*ssa.Function) {
 				if os.Getenv("SYMGO_PROGRESS") != "" {
 					fmt.Fprintf(os.Stderr, "[%4.0fs] paths=%d queued=%d active=%d queries=%d\n", time.Since(t0).Seconds(), e.pathsRun, len(e.stack), e.active, e.queries)
 				}
+				if int(time.Since(t0).Seconds()) > e.Cfg.MaxSeconds+180 {
+					// a worker is stuck inside a solver call or a host loop: give up loudly
+					fmt.Printf("INCONCLUSIVE exploration did not stop %ds after its time budget of %ds; aborting\n", 180, e.Cfg.MaxSeconds)
+					os.Exit(2)
+				}
 				if int(time.Since(t0).Seconds()) > e.Cfg.MaxSeconds && !e.stop {
 					e.stop = true
 					for _, it := range e.stack {
